@@ -19,7 +19,7 @@ RULE = ("Histories of 1..40 steps on 2..4 real secured stations (each with its o
         "receiver first sees a digest of an unknown ticket (P2PCD path), or a certificate/digest decision within 100 ms of the 1 s boundary.")
 ASSUMPTIONS = [
     "certificate inclusion is checked one-directionally: (more than 1 s since the certificate was last on air in any message of the station, or a peer asked) implies certificate; extra inclusions are allowed",
-    "'a peer asked' = the station successfully verified a CAM/VAM whose inlineP2pcdRequest contains its HashedId3 since its last certificate inclusion",
+    "'a peer asked' = the station successfully verified a CAM/VAM whose inlineP2pcdRequest contains its HashedId3 since its last certificate inclusion; a station that met a digest of an unknown ticket includes its own certificate in its next CAM/VAM (the request it carries must be verifiable by the peer it is meant for)",
     "stations only emit message types covered by their ticket",
 ]
 
@@ -102,6 +102,7 @@ def run_case(case):
         knows = [[(case["preload"] and i != j) for j in range(n)] for i in range(n)]   # knows[r][s]
         failed = [[False] * n for _ in range(n)]       # r failed on a digest of s and has not learned it yet
         asked = [False] * n                             # a peer asked s for its certificate
+        unknown_seen = [False] * n                      # s met a digest of a ticket it does not hold: the peer is new to it and, most likely, it to the peer
         last_cert = [None] * n                          # virtual time the certificate of s was last on air
 
         for step_i, stp in enumerate(case["steps"]):
@@ -144,15 +145,16 @@ def run_case(case):
             # certificate obligation (CAM / VAM)
             if t in ("cam", "vam"):
                 gap = None if last_cert[s] is None else clock.now - last_cert[s]
-                must = asked[s] or gap is None or gap > 1.0 + 1e-6
+                must = asked[s] or unknown_seen[s] or gap is None or gap > 1.0 + 1e-6
                 if gap is not None and abs(gap - 1.0) <= 0.1:
                     labels.add("gap-near-1s")
                 if must and not carries_cert:
-                    why = "peer-asked" if asked[s] else ("first-message" if gap is None else "more-than-1s")
+                    why = "peer-asked" if asked[s] else ("unknown-peer-seen" if unknown_seen[s] else ("first-message" if gap is None else "more-than-1s"))
                     vs.append(violation(ID, "C05/certificate-not-included:%s" % why, "step %d: %s of station %d signed with digest although %s (gap %r s)" % (step_i, t, s, why, gap)))
             if carries_cert:
                 last_cert[s] = clock.now
                 asked[s] = False
+                unknown_seen[s] = False
             eth.pump()
             # ---------------- (a) acceptance at every receiver
             if "requestedCertificate" in info.get("fields", ()):
@@ -178,6 +180,7 @@ def run_case(case):
                     if got:
                         vs.append(violation(ID, "C05/digest-of-unknown-ticket-accepted", "step %d: station %d accepted a digest-signed %s of station %d whose ticket it never saw" % (step_i, r, t, s)))
                     failed[r][s] = True
+                    unknown_seen[r] = True          # TS 103 097 7.1.1: r's next CAM/VAM carries r's own certificate (and the request for s's)
                     labels.add("digest-of-unknown-ticket")
                 # p2pcd: s's CAM/VAM that r verified may carry requests for r's certificate
                 if t in ("cam", "vam") and expect and dig[r][-3:] in info["inline"]:
